@@ -295,6 +295,23 @@ pub fn run(ctx: &mut Ctx) {
             ctx.count("oversized-values-decoded");
         }
     }
+    // ---- every one of the 65 536 type codes against every decoder, with a value that is valid for
+    //      that decoder: only its own code is accepted, every other one is the wrong implementation ----
+    {
+        let mut vr = crate::prng::Rng::new(0xC08);
+        for k in ALL_KINDS {
+            let rv = gen_refval(&mut vr, k);
+            let value = ref_encode(k, &rv, &tids[2]).unwrap();
+            for t in 0..=0xffffu32 {
+                idx += 1;
+                if !ctx.mine(idx) || t as u16 == k.code() {
+                    continue;
+                }
+                check_decode(ctx, k, t as u16, &value, &tids[2]);
+            }
+            ctx.count_n("type-codes-swept", if ctx.shard == 0 { 65_535 } else { 0 });
+        }
+    }
     // ---- exhaustive small domains ----
     // all lengths 0..=40 for every type with every other type's tag (wrong implementation)
     for k in ALL_KINDS {
